@@ -59,12 +59,20 @@ End Agree.
 
 
 Definition unit_eqb (_ _ : unit) : bool := true.
-Definition ZZ_eqb (a b : Z * Z) : bool := Z.eqb (fst a) (fst b) && Z.eqb (snd a) (snd b).
+(* items of the harness: (value, tag, uid); Python's == on them compares the value only, the model
+   compares all three components *)
+Definition item : Type := (Z * Z * Z)%type.
+Definition item_v (x : item) : Z := fst (fst x).
+Definition item_tag (x : item) : Z := snd (fst x).
+Definition item_uid (x : item) : Z := snd x.
+Definition item_eqb (a b : item) : bool :=
+  Z.eqb (item_v a) (item_v b) && Z.eqb (item_tag a) (item_tag b) && Z.eqb (item_uid a) (item_uid b).
 
 Definition agree_container (cap : option Q) := agree (Container cap) Qeq_bool unit_eqb.
-Definition agree_store (cap : option Q) := agree (Store Z cap) (list_eqb Z.eqb) Z.eqb.
-Definition agree_prio (cap : option Q) := agree (PriorityStore (Z * Z) fst cap) (list_eqb ZZ_eqb) ZZ_eqb.
-Definition agree_filter (cap : option Q) := agree (FilterStore Z cap) (list_eqb Z.eqb) Z.eqb.
+Definition agree_store (cap : option Q) := agree (Store item cap) (list_eqb item_eqb) item_eqb.
+Definition agree_prio (cap : option Q) := agree (PriorityStore item item_v cap) (list_eqb item_eqb) item_eqb.
+Definition agree_filter (cap : option Q) := agree (FilterStore item cap) (list_eqb item_eqb) item_eqb.
 
-(* the filter family of the harness: item ≡ r (mod m) *)
-Definition fmod (m r : Z) : Z -> bool := fun x => Z.eqb (x mod m) r.
+(* the filter family of the harness: value = r (mod m), and tag = t unless t < 0 *)
+Definition fsel (m r t : Z) : item -> bool :=
+  fun x => Z.eqb (item_v x mod m) r && ((t <? 0)%Z || Z.eqb (item_tag x) t).
